@@ -55,6 +55,11 @@ def run(P: Program, rep: Report):
     rep.count("splitter_method_calls_scanned", calls)
     rep.ok("C04.R4", "library:no-remove-replace", mod.relpath, f"{calls} method calls scanned, none removes/replaces (control: Library defines both)")
 
+    rep.rule("C04.R5", "blocks are independent of look-alike keys earlier in the text: entries / strings whose keys differ only in letter "
+                       "case (or by case folding, or a trailing blank) are distinct live blocks, none is turned into a duplicate block")
+    from . import common as _cm
+    _cm.keys_are_exact(P, rep, "C04.R5")
+
     rep.rule("C04.R9", "no unsafe memoisation in the modules this property rests on: a function decorated with lru_cache / cache / "
                       "cached_property neither takes nor returns a mutable object (else later calls see stale or shared results)")
     from . import common as _common
